@@ -1009,9 +1009,14 @@ void _GD_PerformRename(DIRFILE *restrict D,
   /* re-sort the entry list */
   qsort(D->entry, D->n_entries, sizeof(gd_entry_t*), _GD_EntryCmp);
 
-  /* Invalidate field lists */
-  rdat->fl->value_list_validity = 0;
-  rdat->fl->entry_list_validity = 0;
+  /* Invalidate field lists -- all of them: renaming a field also renames its
+   * metafields, whose names the parent's own lists point into */
+  for (i = 0; i < D->n_entries; ++i) {
+    D->entry[i]->e->fl.value_list_validity = 0;
+    D->entry[i]->e->fl.entry_list_validity = 0;
+  }
+  D->fl.value_list_validity = 0;
+  D->fl.entry_list_validity = 0;
 
   /* rehash the aliases */
   _GD_UpdateAliases(D, 1);
